@@ -5,8 +5,8 @@
    The deflate codec (zlib compressobj / ZLibDecompressor) is a parameter of the theorems: types Cc, Cx, functions
    cinit / comp / decomp and a pairing relation Rsync with the four laws below as premises; `toy_*` instantiates
    them (C11_toy_codec_laws), real zlib is sampled against the same laws by harness/c11.py. *)
-From AV Require Import Lib.Base Lib.Utf8Valid Generated.WsGen Generated.WsCodecGen Model.Ws Model.WsCodec Model.WsSend
-  Proofs.WsSeg Proofs.WsRefine Proofs.WsCodecBytes Proofs.WsCodecFrame Proofs.WsCodecRT Proofs.WsCodecToy Proofs.WsSendInv.
+From AV Require Import Lib.Base Lib.Utf8Valid Generated.WsGen Generated.WsCodecGen Model.Ws Model.WsCodec Model.WsSend Model.WsQueue
+  Proofs.WsSeg Proofs.WsRefine Proofs.WsCodecBytes Proofs.WsCodecFrame Proofs.WsCodecRT Proofs.WsCodecToy Proofs.WsSendInv Proofs.WsQueueInv.
 Open Scope N_scope.
 
 (* ---- 1. masking and length encoding (all payloads, all sizes) ------------------------------------------ *)
@@ -233,3 +233,51 @@ Example C11_lock_discipline_examples :
   /\ crun toyc toy_cinit toy_comp wc (cinit_state toyc) [EAcq 1; EComp 2 b] = None.
 Proof. cbv zeta. split; [eexists; vm_compute; repeat split|vm_compute; repeat split]. Qed.
 Print Assumptions C11_lock_discipline_examples.
+
+(* ---- 5. submission order and the receive queue -------------------------------------------------------------------
+   send_frame asks for the (fair) lock before it returns control — FEnq is ONE event: the call and the lock request
+   (the shielded task of a large message is started eagerly for that reason).  Then, for every accepted trace, the
+   compressed messages reach the wire in the order in which send_frame was called. *)
+Theorem C11_wire_order_is_submission_order :
+  forall (Cc : Type) (cinit : N -> Cc) (comp : bool -> Cc -> bytes -> bytes * Cc) (wc : wcfg)
+         (evs : list fev) (st : fstate Cc),
+    frun Cc cinit comp wc (finit_state Cc) evs = Some st -> f_q st = [] -> f_cur st = None ->
+    comp_ops wc (c_order (f_c st)) = f_sub st.
+Proof. exact wire_order_is_submission_order. Qed.
+Print Assumptions C11_wire_order_is_submission_order.
+
+(* such a trace, with the lock requests left out, is a trace of the system of section 4 *)
+Theorem C11_submission_traces_are_lock_traces :
+  forall (Cc : Type) (cinit : N -> Cc) (comp : bool -> Cc -> bytes -> bytes * Cc) (wc : wcfg)
+         (evs : list fev) (st st' : fstate Cc),
+    frun Cc cinit comp wc st evs = Some st' -> crun Cc cinit comp wc (f_c st) (proj_evs evs) = Some (f_c st').
+Proof. exact frun_crun. Qed.
+Print Assumptions C11_submission_traces_are_lock_traces.
+
+(* gather(big A, small B): A queues and gets the lock inside its call, B queues behind it; B overtaking A (taking the
+   lock while A is at the head of the queue) is not a trace *)
+Example C11_submission_order_examples :
+  let wc := mkw false 15 false in
+  let a := Send OP_BINARY [1; 2] 0 0 in
+  let b := Send OP_BINARY [3] 0 0 in
+  (exists st, frun toyc toy_cinit toy_comp wc (finit_state toyc)
+                [FEnq 1 a; FEv (EAcq 1); FEnq 2 b; FEv (EComp 1 a); FEv (EWrite 1); FEv (ERel 1);
+                 FEv (EAcq 2); FEv (EComp 2 b); FEv (EWrite 2); FEv (ERel 2)] = Some st
+              /\ comp_ops wc (c_order (f_c st)) = [a; b] /\ f_sub st = [a; b])
+  /\ frun toyc toy_cinit toy_comp wc (finit_state toyc) [FEnq 1 a; FEnq 2 b; FEv (EAcq 2)] = None
+  /\ frun toyc toy_cinit toy_comp wc (finit_state toyc) [FEnq 1 a; FEv (EAcq 1); FEv (EComp 1 b)] = None.
+Proof. cbv zeta. split; [eexists; vm_compute; repeat split|vm_compute; repeat split]. Qed.
+Print Assumptions C11_submission_order_examples.
+
+(* WebSocketDataQueue: over all interleavings of feed_data, read(), and cancelled read()s (parked or already woken),
+   what the read()s returned followed by what is still buffered is exactly what was fed, in order *)
+Theorem C11_queue_exactly_once_in_order :
+  forall (evs : list qev) (st : qstate), qrun qinit evs = Some st -> q_got st ++ q_buf st = q_fed st.
+Proof. exact queue_from_init. Qed.
+Print Assumptions C11_queue_exactly_once_in_order.
+
+Example C11_queue_cancelled_read_loses_nothing :
+  forall m m2, exists st,
+    qrun qinit [QRead; QFeed m; QCancel; QRead; QFeed m2; QReturn] = Some st /\ q_got st = [m] /\ q_buf st = [m2].
+Proof. exact cancel_after_wake_keeps_message. Qed.
+Print Assumptions C11_queue_cancelled_read_loses_nothing.
